@@ -46,9 +46,22 @@ two planes per ring in `proj_Siddon` (the last two: known candidates with propos
 Round 3 (image grids whose first plane is not 0): `proj_Siddon` tests `plane >= 0` instead of `plane >= min_index`, so planes
 of negative index are ignored and memory before a positive first plane is read (known candidate
 `on-the-fly-raytracing:image-first-plane-not-0`, proposed repair `build/fixes/C04-4.diff`).
+
+Round 4 (field of view x symmetries): which voxels a row of `ProjMatrixByBinUsingRayTracing` contains is decided by the two
+end points `min_a`, `max_a` that `ray_trace_one_lor` computes on the border of the cylindrical or the SQUARE field of view
+(`restrict to cylindrical FOV := 0`).  With the view symmetries in use only views of 0..45 degrees reach that code; with
+them switched off (by option, or automatically for TOF data, view mashing, a view offset, `use_actual_detector_boundaries`)
+every view does, with `cos φ < 0` beyond 90 degrees.  `squareChord` / `cylChordSq` transcribe that code and
+`C04_square_fov_*`, `C04_cylindrical_fov_chord_exact` (end of this file) say that, for every sign of `cos φ` and `sin φ`, the
+end points bound exactly the part of the LOR inside the field of view — what both the matrix and the on-the-fly projector
+have to trace for the last clause of the property to hold.  The harness sends every ray of its cross product
+{cylindrical, square} x {32 symmetry settings} x {1, 2, 3 rays} x {detector boundaries} to the model (`sqchord`) and checks the
+rows of the real matrix against the same geometry (non-empty, row sum = chord, column sums = 2D lengths), and the on-the-fly
+projector against the matrix for all 32 symmetry settings and both fields of view, all views.
 -/
 import StirVerif.C04.ProofsProc
 import StirVerif.C04.ProofsMatrix
+import StirVerif.C04.ProofsChord
 
 set_option linter.unusedSectionVars false
 set_option linter.unusedSimpArgs false
@@ -534,5 +547,133 @@ end Matrix
 example : fwdRow ⟨0, 0, fun v => v.2.2.toNat⟩ [((0, 0, 0), (2 : Int)), ((0, 0, 1), 3), ((5, 0, 1), 7)] #[10, 100] 0 = 320
     ∧ bckRow ⟨0, 0, fun v => v.2.2.toNat⟩ [((0, 0, 0), (2 : Int)), ((0, 0, 1), 3), ((5, 0, 1), 7)] 4 #[1, 1] = #[9, 13] := by
   decide
+
+
+/-! ### the end points of the ray tracing: the part of the LOR inside the field of view
+
+"The on-the-fly ray-tracing forward projector gives the same data as forward projection through the ray-tracing matrix
+with the same settings": both trace the LOR `X = s cos φ + a sin φ`, `Y = s sin φ − a cos φ` between the points where it
+enters and leaves the field of view.  For the matrix these are `min_a`, `max_a` of `ray_trace_one_lor`
+(`squareEnds`, `squareChord`, `cylChordSq`); the theorems hold for every sign of `cos φ`, `sin φ`, i.e. for every view —
+beyond 90 degrees too, where the rows are computed directly only when the view symmetries are off. -/
+
+/-- the point `a` of the LOR lies in the square field of view `|X| ≤ F`, `|Y| ≤ F` -/
+def InSquare (fov s c sn a : Rat) : Prop := |s * c + a * sn| ≤ fov ∧ |s * sn - a * c| ≤ fov
+
+/-- the point `a` of the LOR lies in the cylindrical field of view `X² + Y² ≤ F²` -/
+def InCylinder (fov s c sn a : Rat) : Prop :=
+  (s * c + a * sn) * (s * c + a * sn) + (s * sn - a * c) * (s * sn - a * c) ≤ fov * fov
+
+/-- Square field of view, general case (`ray_trace_one_lor`, :519-521): `[min_a, max_a]` is EXACTLY the set of points of
+    the LOR inside the square, whatever the signs of `cos φ` and `sin φ` (all four quadrants of view angles), the size of
+    the field of view and the position `s` of the LOR (empty interval = the LOR misses the square). -/
+theorem C04_square_fov_ends_are_exact (fov s c sn : Rat) (hc : c ≠ 0) (hs : sn ≠ 0) (a : Rat) :
+    ((squareEnds fov s c sn).1 ≤ a ∧ a ≤ (squareEnds fov s c sn).2) ↔ InSquare fov s c sn a :=
+  squareEnds_inside_iff fov s c sn a hc hs
+
+/-- Square field of view, the function as a whole away from the multiples of 90 degrees: when it returns end points, the
+    points of the LOR between them are exactly those inside the square. -/
+theorem C04_square_fov_chord_exact (fov s c sn vx lo hi : Rat) (hgen : ¬(rabs c < milli ∨ rabs sn < milli))
+    (h : squareChord fov s c sn vx = some (lo, hi)) (a : Rat) :
+    (lo ≤ a ∧ a ≤ hi) ↔ InSquare fov s c sn a := by
+  have hc : c ≠ 0 := by
+    rintro rfl
+    exact hgen (Or.inl (by unfold rabs milli; norm_num))
+  have hs : sn ≠ 0 := by
+    rintro rfl
+    exact hgen (Or.inr (by unfold rabs milli; norm_num))
+  unfold squareChord at h
+  rw [if_neg hgen] at h
+  simp only at h
+  split_ifs at h with h1
+  have e : squareEnds fov s c sn = (lo, hi) := Option.some.inj h
+  have := C04_square_fov_ends_are_exact fov s c sn hc hs a
+  rw [e] at this
+  exact this
+
+/-- ... and when it returns without end points (`none`: the bin gets no element from this ray), the part of the LOR inside
+    the square is shorter than a thousandth of a voxel (`1.E-3 * voxel_size.x()`): empty rows only for LORs that miss the
+    field of view or graze a corner. -/
+theorem C04_square_fov_none_only_if_shorter_than_a_milli_voxel (fov s c sn vx : Rat)
+    (hgen : ¬(rabs c < milli ∨ rabs sn < milli)) (h : squareChord fov s c sn vx = none) (a a' : Rat)
+    (ha : InSquare fov s c sn a) (ha' : InSquare fov s c sn a') : a' - a < milli * vx := by
+  have hc : c ≠ 0 := by
+    rintro rfl
+    exact hgen (Or.inl (by unfold rabs milli; norm_num))
+  have hs : sn ≠ 0 := by
+    rintro rfl
+    exact hgen (Or.inr (by unfold rabs milli; norm_num))
+  unfold squareChord at h
+  rw [if_neg hgen] at h
+  simp only at h
+  split_ifs at h with h1
+  have h2 := (C04_square_fov_ends_are_exact fov s c sn hc hs a).mpr ha
+  have h3 := (C04_square_fov_ends_are_exact fov s c sn hc hs a').mpr ha'
+  linarith [h2.1, h3.2]
+
+/-- Square field of view, views at a multiple of 90 degrees exactly (`sin φ = 0`, `cos φ = ±1`; the code takes this branch
+    for `|sin φ| < 1.E-3`): end points `∓F` iff `|s| ≤ F`, and then the points between them are exactly those inside. -/
+theorem C04_square_fov_axis_parallel (fov s c vx : Rat) (hc : c * c = 1) :
+    (squareChord fov s c 0 vx = none ↔ fov < |s|) ∧
+      (squareChord fov s c 0 vx ≠ none → squareChord fov s c 0 vx = some (-fov, fov) ∧
+        ∀ a, (-fov ≤ a ∧ a ≤ fov) ↔ InSquare fov s c 0 a) := by
+  have hnear : rabs c < milli ∨ rabs (0 : Rat) < milli := Or.inr (by unfold rabs milli; norm_num)
+  have habs : |c| = 1 := by
+    have : |c| * |c| = 1 := by rw [← abs_mul, hc, abs_one]
+    nlinarith [abs_nonneg c]
+  unfold squareChord
+  rw [if_pos hnear, rabs_eq_abs]
+  constructor
+  · split_ifs with h
+    · exact ⟨fun _ => h, fun _ => rfl⟩
+    · exact ⟨fun e => (by cases e), fun e => absurd e h⟩
+  · split_ifs with h
+    · intro e; exact absurd rfl e
+    · intro _
+      refine ⟨rfl, fun a => ?_⟩
+      unfold InSquare
+      have e1 : |s * c + a * 0| = |s| := by rw [mul_zero, add_zero, abs_mul, habs, mul_one]
+      have e2 : |s * 0 - a * c| = |a| := by rw [mul_zero, zero_sub, abs_neg, abs_mul, habs, mul_one]
+      rw [e1, e2]
+      constructor
+      · intro h2; exact ⟨not_lt.mp h, abs_le.mpr h2⟩
+      · intro h2; exact abs_le.mp h2.2
+
+/-- Cylindrical field of view (:481-500), `cos²φ + sin²φ = 1`: the code returns without end points exactly when no point
+    of the LOR is inside (`|s| > F`), otherwise `max_a² = F² − s²` and the points with `a² ≤ max_a²` (`−max_a ≤ a ≤ max_a`)
+    are exactly those inside — for every view angle. -/
+theorem C04_cylindrical_fov_chord_exact (fov s c sn : Rat) (hfov : 0 ≤ fov) (h1 : c * c + sn * sn = 1) :
+    (cylChordSq fov s = none → ∀ a, ¬InCylinder fov s c sn a) ∧
+      (∀ m, cylChordSq fov s = some m → ∀ a, a * a ≤ m ↔ InCylinder fov s c sn a) := by
+  unfold cylChordSq InCylinder
+  rw [rabs_eq_abs]
+  constructor
+  · intro h a
+    split_ifs at h with h2
+    rw [lor_radius_sq s c sn a h1]
+    have : fov * fov < s * s := by
+      have h3 : fov * fov < |s| * |s| := by nlinarith [abs_nonneg s]
+      rwa [abs_mul_abs_self] at h3
+    nlinarith [mul_self_nonneg a]
+  · intro m h a
+    split_ifs at h with h2
+    have e : fov * fov - s * s = m := Option.some.inj h
+    rw [lor_radius_sq s c sn a h1, ← e]
+    constructor <;> intro h3 <;> linarith
+
+/-- non-vacuity, a view beyond 90 degrees (`cos φ = −3/5 < 0 < sin φ = 4/5`, field of view 3, `s = 1`): the LOR crosses the
+    square between `a = −3` and `a = 11/3`; with `s = 5` it misses it; a view at 90 degrees; the cylinder -/
+example : squareChord 3 1 (-3/5) (4/5) 1 = some (-3, 11/3) := by
+  unfold squareChord squareEnds sgn rabs milli; norm_num
+example : squareChord 3 5 (-3/5) (4/5) 1 = none := by
+  unfold squareChord squareEnds sgn rabs milli; norm_num
+example : InSquare 3 1 (-3/5) (4/5) 2 ∧ ¬InSquare 3 1 (-3/5) (4/5) 4 := by
+  unfold InSquare; norm_num [abs_le]
+example : squareChord 3 1 (-1) 0 1 = some (-3, 3) ∧ squareChord 3 4 (-1) 0 1 = none := by
+  unfold squareChord rabs milli; norm_num
+example : cylChordSq 3 1 = some 8 ∧ cylChordSq 3 4 = none := by
+  unfold cylChordSq rabs; norm_num
+example : ¬(rabs (-3/5 : Rat) < milli ∨ rabs (4/5 : Rat) < milli) := by
+  unfold rabs milli; norm_num
 
 end StirVerif.C04
